@@ -1875,6 +1875,14 @@ class Program:
                 r = ((good, T.ite(c, SOME(pg), NONE)), (bad, NONE))
         elif m == "flatten" and opt and len(args) == 1:
             r = ((good, pg), (bad, NONE))
+        elif m in ("is_some_and", "is_ok_and") and len(args) == 2:
+            c = ap(args[1], [pg], good)
+            if c is not None:
+                r = ((good, c), (bad, T.const("bool", 0)))
+        elif m == "is_none_or" and opt and len(args) == 2:
+            c = ap(args[1], [pg], good)
+            if c is not None:
+                r = ((good, c), (bad, T.const("bool", 1)))
         elif m == "transpose" and len(args) == 1:
             if opt:     # Option<Result<T, E>> -> Result<Option<T>, E>
                 r = ((good, T.mterm(pg, (("Ok", OK(SOME(T.payload(pg, "Ok")))), ("Err", ERR(T.payload(pg, "Err")))))), (bad, OK(NONE)))
